@@ -8,7 +8,8 @@
     regenerated table (27 on the pinned tree); the finite facts are decided by enumeration
     (27 codes x 64 codons, 27 x 17^3 alphabet words, 15 IUPAC symbols x 2 moltypes x 2
     implementations), everything about sequences is by induction over sequences of ANY length. *)
-From CG3 Require Import Lib.PyZ Lib.Val Model.GeneticCode Spec.GeneticCodeSpec Proofs.GeneticCodeProofs.
+From CG3 Require Import Lib.PyZ Lib.Val Model.GeneticCode Spec.GeneticCodeSpec Proofs.GeneticCodeProofs
+  Proofs.GeneticCodeCollProofs Proofs.GeneticCodeDegenProofs.
 From CG3gen Require Import GCTables.
 
 (* ------------------------------------------------------------------ the tables *)
@@ -197,6 +198,86 @@ Theorem alignment_trim_pinned_refuted :
     seq_get_translation_old true aa row false false false = Err E_Alpha /\
     aln_get_translation_old true true aa rows false false false = Err E_Alpha.
 Proof. exact alignment_trim_pinned_refuted_lemma. Qed.
+
+(* ------------------------------------------------------------------ collections and alignments *)
+
+(** SequenceCollection.get_translation, new and old objects, every list of canonical sequences (ANY
+    lengths), every code, all 8 option combinations: the rows are translated one by one exactly
+    as Sequence.get_translation does ([stop_spec] per row, same order, same number of rows), and
+    the request is rejected as a whole iff one row is ([all_or_none]).  (The model is positional:
+    names are the dictionary keys the implementation carries along; the check compares them.) *)
+Theorem collection_new_is_rowwise : forall id aa st seqs ok inc trim,
+  In (id, aa, st) new_codes -> canon_rows seqs ->
+  ropt (coll_get_translation_new true true aa seqs ok inc trim)
+  = collection_spec (ncbi_tbl id) (eff_trim_new inc trim) inc ok seqs.
+Proof. exact coll_new_spec_lemma. Qed.
+
+Theorem collection_old_is_rowwise : forall id aa st seqs ok inc trim,
+  In (id, aa, st) new_codes -> canon_rows seqs ->
+  ropt (coll_get_translation_old true true aa seqs ok inc trim)
+  = collection_spec (ncbi_tbl id) (eff_trim_old inc trim) inc ok seqs.
+Proof. exact coll_old_spec_lemma. Qed.
+
+(** old Alignment / ArrayAlignment.get_translation.  Guard, exactly: every row is a concatenation
+    of triplets, each a codon of bases or "---" ([rows_wf]: codon-aligned gaps), and all rows
+    have the same number [n] of triplets.  Then, for every code and all 8 option combinations:
+    when trimming (trim_stop and not include_stop) EVERY row has its last residue codon replaced
+    by "---" if it is a stop codon ([trim_row], whatever the other rows end in; the regular
+    expression can match nowhere else); each row translates triplet by triplet, "---" to "-";
+    a remaining stop codon rejects the request unless include_stop; incomplete_ok is irrelevant
+    under the guard; rows keep their order. *)
+Theorem alignment_old_is_rowwise : forall id aa st wss n ok inc trim,
+  In (id, aa, st) new_codes -> rows_wf wss -> (forall ws, In ws wss -> length ws = n) ->
+  ropt (aln_get_translation_old true true aa (map (@concat Z) wss) ok inc trim)
+  = alignment_spec (ncbi_tbl id) (eff_trim_old inc trim) inc wss.
+Proof. exact aln_old_spec_lemma. Qed.
+
+(** ... and the translated rows have equal length [n], one row per input row *)
+Theorem alignment_translation_rows_equal_length : forall tbl trim inc wss n peps,
+  (forall ws, In ws wss -> length ws = n) ->
+  alignment_spec tbl trim inc wss = Some peps ->
+  Forall (fun p => length p = n) peps /\ length peps = length wss.
+Proof. exact alignment_spec_lengths. Qed.
+
+(** the regular expression of trim_stop_codons on a row of aligned triplets *)
+Theorem alignment_regex_is_last_codon : forall id aa st ws,
+  In (id, aa, st) new_codes -> row_wf ws ->
+  regex_trim aa (concat ws) = concat (trim_row (ncbi_tbl id) ws).
+Proof. exact regex_trim_row. Qed.
+
+(** six frames: old object, new object and app.translate.translate_frames agree (sequences of
+    at least 3 symbols; below, the old object raises ValueError for frames starting past the end) *)
+Theorem sixframes_old_new_agree : forall id aa st s,
+  In (id, aa, st) new_codes -> canon_str s -> 2 < zlen s ->
+  sixframes_old aa DNA s = Ok (map snd (sixframes aa s)).
+Proof. exact sixframes_agree_lemma. Qed.
+
+Theorem translate_frames_spec : forall id aa st s allow_rc,
+  In (id, aa, st) new_codes -> canon_str s -> 2 < zlen s ->
+  translate_frames aa DNA s allow_rc
+  = Ok (if allow_rc then six_frames_spec (ncbi_tbl id) s
+        else map (frame_plus (ncbi_tbl id) s) [0; 1; 2]%nat).
+Proof. exact translate_frames_spec_lemma. Qed.
+
+(* ------------------------------------------------------------------ degenerate codons *)
+
+(** old-style Sequence.get_translation on a codon of IUPAC nucleotide symbols (every code x 15^3
+    codons x all option combinations): the residues of ALL the codons of bases it stands for
+    (stop codons left out unless include_stop), as a set, encoded as one amino-acid symbol -- the
+    residue itself when all resolutions agree, B for {D,N}, Z for {E,Q}, X otherwise --; rejected
+    when only stop codons are left.  (The new-style objects translate every such codon to X:
+    theorem incomplete_codon.) *)
+Theorem degenerate_codon_is_set_of_resolutions : forall id aa st a b c ok inc,
+  In (id, aa, st) new_codes -> In a iupac_syms -> In b iupac_syms -> In c iupac_syms ->
+  ropt (old_codon aa ok inc [a; b; c]) = degenerate_codon_spec (ncbi_tbl id) inc [a; b; c].
+Proof. exact degenerate_codon_lemma. Qed.
+
+(** a triplet holding "-" next to nucleotide symbols is "?" with incomplete_ok and rejected without *)
+Theorem partial_gap_codon : forall id aa st a b c ok inc,
+  In (id, aa, st) new_codes -> In a gapped_syms -> In b gapped_syms -> In c gapped_syms ->
+  has_gap [a; b; c] = true -> [a; b; c] <> gap_triplet ->
+  ropt (old_codon aa ok inc [a; b; c]) = partial_gap_spec ok.
+Proof. exact partial_gap_codon_lemma. Qed.
 
 (* ------------------------------------------------------------------ complement, reverse complement *)
 
